@@ -50,3 +50,13 @@ const (
 	Second
 	Third
 )
+
+// Chain reaches Link - a struct holding a union - first through a pointer.
+type Chain struct {
+	Head *Link
+}
+
+type Link struct {
+	Value Expr
+	Next  *Link
+}
